@@ -87,7 +87,7 @@ def gen_case(ch: Chooser, excl=(), placement=None, cwd=None):
         opts["output_dir"] = "./src/doc"
         allowed = ["proj/src/doc"]
     elif placement == "src-equals-output":
-        opts["output_dir"] = ch.choice(["./src", "src/", "./other/../src"])
+        opts["output_dir"] = ch.choice(["./src", "src/", "./other/../src", "<ROOT>/proj/other/../src", "<ROOT>/proj/src"])
         refuse = True
     elif placement == "src-under-output":
         del files["proj/src/conf.f90"], files["proj/src/main.f90"]
@@ -95,11 +95,11 @@ def gen_case(ch: Chooser, excl=(), placement=None, cwd=None):
         files["proj/code/src/main.f90"] = SRC2
         files["proj/code/readme.txt"] = "would be deleted with the output directory\n"
         opts["src_dir"] = "./code/src"
-        opts["output_dir"] = ch.choice(["./code", "code/."])
+        opts["output_dir"] = ch.choice(["./code", "code/.", "<ROOT>/proj/code/src/.."])
         refuse = True
     elif placement == "src-equals-output-via-symlink":
         symlinks.append(["proj/alias", "src"])
-        opts["output_dir"] = ch.choice(["./alias", "alias/"])
+        opts["output_dir"] = ch.choice(["./alias", "alias/", "<ROOT>/proj/alias"])
         refuse = True
     elif placement == "src-under-output-via-symlink":
         del files["proj/src/conf.f90"], files["proj/src/main.f90"]
@@ -108,7 +108,7 @@ def gen_case(ch: Chooser, excl=(), placement=None, cwd=None):
         files["proj/code/readme.txt"] = "would be deleted with the output directory\n"
         symlinks.append(["proj/current", "code"])
         opts["src_dir"] = "./code/src"
-        opts["output_dir"] = ch.choice(["./current", "../proj/current"])
+        opts["output_dir"] = ch.choice(["./current", "../proj/current", "<ROOT>/proj/current", "<ROOT>/sibling/../proj/current"])
         refuse = True
     elif placement == "graph-outside":
         allowed = ["proj/doc", "graphs_here"]
